@@ -119,7 +119,7 @@ def model_checking(ctx):
 
 
 def strip(t):
-    drop = ("seq", "scen", "level", "err", "what", "how")
+    drop = ("seq", "scen", "level", "err", "what", "how", "step")
     return [{k: v for k, v in r.items() if k not in drop} for r in t]
 
 
@@ -193,7 +193,62 @@ def diagnose(ctx, trace, k):
     return ok, hw, clauses, fib, res.out[-1500:]
 
 
+def judge(ctx, traces, nthreads, chunk):
+    """Validate the traces; every rejected trace becomes a violation (or a machinery error when an interface fact failed)."""
+    rej = validate_parallel(ctx, traces, nthreads, chunk)
+
+    for n, (k, line) in enumerate(sorted(rej)):
+        t = traces[k]
+        bad = t[line - 1] if line - 1 < len(t) else {}
+        ok, hw, clauses, fib, tail = diagnose(ctx, t, n)
+        if bad.get("ev") == "rget" or (fib and not clauses):
+            raise MachineryError("Fib.tla disagrees with the kernel (`ip route get`) at line %d of a level-2 trace: %s\n%s" % (
+                line, json.dumps({x: bad.get(x) for x in ("ns", "pkt", "res")}), tail))
+        if ok:
+            raise MachineryError("trace %d rejected in a batch but accepted alone" % k)
+        if not clauses:
+            raise MachineryError("trace %d rejected at line %d without a C13 clause (interface fact failed): %s\n%s" % (
+                k, line, json.dumps({x: v for x, v in bad.items() if x not in ("dump", "confs", "links")})[:800], tail))
+        brief = {x: v for x, v in bad.items() if x not in ("dump", "confs", "links", "seq")}
+        case = dict(level=t[0].get("level"), failing_line=line, clauses=clauses, event=brief,
+                    steps=[{x: v for x, v in r.items() if x not in ("dump", "confs", "links", "seq")} for r in t[:line] if r["ev"] != "rget"],
+                    confs=bad.get("confs"), host_after=next((d for d in bad.get("dump", []) if d.get("ns") == 0), None))
+        for cl in clauses:
+            add_violation(ctx, cl, case, what="level %s, %s of pod %s (%s, att %s): %s" % (
+                t[0].get("level"), bad.get("ev"), bad.get("pod", (bad.get("cfg") or {}).get("pod")),
+                (bad.get("cfg") or {}).get("dp", "-"), (bad.get("cfg") or {}).get("att", "-"), cl))
+
+    return rej
+
+
+def replay(ctx):
+    """Drive the scenario of a recorded violation again through the current code (same level) and judge the new trace."""
+    p = ctx.replay
+    f = os.path.join(p, "violation.json") if os.path.isdir(p) else p
+    with open(f) as fh:
+        v = json.load(fh)
+    case = v["case"]
+    ctx.seed = int(v.get("seed", ctx.seed))      # random address plans are seeded
+    steps = [s["step"] for s in case["steps"] if "step" in s]
+    if not steps:
+        raise MachineryError("the replay bundle carries no scenario steps")
+    scen = os.path.join(ctx.scratch, "replay.scen.ndjson")
+    with open(scen, "w") as fh:
+        fh.write(json.dumps(steps) + "\n")
+    bins = go_build_tests(ctx, [PKG])
+    if case.get("level") == 2:
+        traces = run_harness(ctx, bins[PKG], "TestVerifDatapathL2", scen, 0, 1, True, extra_env={"VERIF_RGET": "1"})
+    else:
+        traces = run_harness(ctx, bins[PKG], "TestVerifDatapathL1", scen, 0, 1, False)
+    judge(ctx, traces, 1, 10)
+    cov = dict(traces_validated_against_impl=len(traces), evaluations=sum(len(t) for t in traces), distinct_nontrivial=len(traces),
+               rule="replay of one recorded scenario", samples=[steps], exhaustive=False)
+    return finish(ctx, "model_checking", cov, ["replay: the recorded scenario steps are driven again through the current working tree"])
+
+
 def run(ctx):
+    if getattr(ctx, "replay", None):
+        return replay(ctx)
     q = ctx.quick
     result = {}
 
@@ -227,28 +282,7 @@ def run(ctx):
                 raise MachineryError("a configuration generator panicked: %s" % json.dumps(r)[:600])
     if not l1 or not l2:
         raise MachineryError("no traces recorded (level 1: %d, level 2: %d)" % (len(l1), len(l2)))
-    rej = validate_parallel(ctx, traces, 8 if q else 12, chunk=40 if q else 30)
-
-    for n, (k, line) in enumerate(sorted(rej)):
-        t = traces[k]
-        bad = t[line - 1] if line - 1 < len(t) else {}
-        ok, hw, clauses, fib, tail = diagnose(ctx, t, n)
-        if bad.get("ev") == "rget" or (fib and not clauses):
-            raise MachineryError("Fib.tla disagrees with the kernel (`ip route get`) at line %d of a level-2 trace: %s\n%s" % (
-                line, json.dumps({x: bad.get(x) for x in ("ns", "pkt", "res")}), tail))
-        if ok:
-            raise MachineryError("trace %d rejected in a batch but accepted alone" % k)
-        if not clauses:
-            raise MachineryError("trace %d rejected at line %d without a C13 clause (interface fact failed): %s\n%s" % (
-                k, line, json.dumps({x: v for x, v in bad.items() if x not in ("dump", "confs", "links")})[:800], tail))
-        brief = {x: v for x, v in bad.items() if x not in ("dump", "confs", "links", "seq")}
-        case = dict(level=t[0].get("level"), failing_line=line, clauses=clauses, event=brief,
-                    steps=[{x: v for x, v in r.items() if x not in ("dump", "confs", "links", "seq")} for r in t[:line] if r["ev"] != "rget"],
-                    confs=bad.get("confs"), host_after=next((d for d in bad.get("dump", []) if d.get("ns") == 0), None))
-        for cl in clauses:
-            add_violation(ctx, cl, case, what="level %s, %s of pod %s (%s, att %s): %s" % (
-                t[0].get("level"), bad.get("ev"), bad.get("pod", (bad.get("cfg") or {}).get("pod")),
-                (bad.get("cfg") or {}).get("dp", "-"), (bad.get("cfg") or {}).get("att", "-"), cl))
+    judge(ctx, traces, 8 if q else 12, 40 if q else 30)
 
     tagc, errs = {}, {}
     for t in traces:
